@@ -610,6 +610,41 @@ func genDeepSchema(rng *rand.Rand) []*Schema {
 	return genSchema(rng, 0, 4, false, 8)
 }
 
+// renameOne: a copy of the schema in which one randomly chosen node (never an array element) has another name
+func renameOne(rng *rand.Rand, schema []*Schema) ([]*Schema, bool) {
+	var nodes []*Schema
+	var cp func(ss []*Schema, inArray bool) []*Schema
+	cp = func(ss []*Schema, inArray bool) []*Schema {
+		var out []*Schema
+		for _, s := range ss {
+			c := *s
+			c.Kids = cp(s.Kids, s.Tag == 0x04)
+			out = append(out, &c)
+			if !inArray {
+				nodes = append(nodes, &c)
+			}
+		}
+		return out
+	}
+	out := cp(schema, false)
+	if len(nodes) == 0 {
+		return nil, false
+	}
+	// prefer enclosing documents: their name is only in the paths of the leaves below them
+	var inner []*Schema
+	for _, n := range nodes {
+		if n.Tag == 0x03 || n.Tag == 0x04 {
+			inner = append(inner, n)
+		}
+	}
+	pick := nodes[rng.Intn(len(nodes))]
+	if len(inner) > 0 && rng.Intn(3) != 0 {
+		pick = inner[rng.Intn(len(inner))]
+	}
+	pick.Key = pick.Key + "_r"
+	return out, true
+}
+
 func streamViews(o *Out, rng *rand.Rand, thorough bool, _ []string) {
 	runStart = time.Now()
 	n := 250
@@ -640,6 +675,14 @@ func streamViews(o *Out, rng *rand.Rand, thorough bool, _ []string) {
 			// a second schema in the same stream
 			docs2 := genDocs(rng, genDeepSchema(rng), 1+rng.Intn(3))
 			stream = append(stream, collect("batch", 2, nil, docs2)...)
+		}
+		if i%3 == 1 {
+			// the same schema again with ONE name changed (a leaf, or an enclosing sub-document: same leaf names, same
+			// depths, same types, same count): names cached from the previous chunk are stale
+			if s2, ok := renameOne(rng, schema); ok {
+				stream = append(stream, collect("batch", 1+rng.Intn(3), nil, genDocs(rng, s2, 1+rng.Intn(4)))...)
+				o.count("views-renamed-node")
+			}
 		}
 		run(o, fmt.Sprintf("views %s | %s", hx(stream), inflateTable(stream)))
 		o.count("views")
